@@ -445,6 +445,42 @@ def translate_jobstate(repo):
     return HEADER % path + "From Gen Require Import GenOccur GenTimer.\n\n" + "\n".join(out)
 
 
+JOBUTIL_KNOWN = {}
+
+
+def translate_jobinit(repo):
+    """BaseJob.__init__ (needs translate_jobutil's signatures)"""
+    import py2v_methods as M
+    import py2v_objs as O
+    if not JOBUTIL_KNOWN:
+        translate_jobutil(repo)
+    upath = os.path.join(repo, "scheduler/base/job_util.py")
+    CURFILE[0] = upath
+    utree = ast.parse(open(upath).read())
+    O.check_template(utree, "get_pending_timer", O.TEMPLATES["get_pending_timer"])
+    O.check_template(utree, "sane_timing_types", O.TEMPLATES["sane_timing_types"])
+    path = os.path.join(repo, "scheduler/base/job.py")
+    CURFILE[0] = path
+    tree = ast.parse(open(path).read())
+    fields = dict(JOB_FIELDS)
+    for k, (proj, ty, _) in JOB_FIELDS.items():
+        fields[k] = (proj, ty, "set_" + proj)
+    templates = {"get_pending_timer": ("py_pending_index", ["list:pytimer"], "index:__timers"),
+                 "sane_timing_types": ("py_sane_timing_types", ["jobtype", "timinglist"], "none")}
+    fd = M.find_method(tree, "BaseJob", "__init__")
+    m = O.ObjMethod(fd, dict(JOBUTIL_KNOWN), "pyjobstate", fields, JOB_ALIASES, TIMER_METHODS, templates,
+                    opaque_params=("handle", "args", "kwargs", "tags", "alias"),
+                    opaque_fields=("__type", "__timing", "__handle", "__args", "__kwargs", "__tags", "__alias",
+                                   "__failed_attempts"),
+                    constructors={"JobTimer": ("jobtimer_new", ["jobtype", "timingu", "datetime", "bool"], "pytimer")})
+    text = m.emit("basejob_init")
+    params = [(a, t) for a, t in m.params]
+    new = "Definition basejob_new (now_us : Z) %s : res pyjobstate := basejob_init blank_pyjobstate now_us %s.\n" % (
+        " ".join("(%s : %s)" % (a, COQTY[t]) for a, t in params), " ".join(a for a, _ in params))
+    head = HEADER % path + "From Gen Require Import GenOccur GenDup GenTimer GenJobUtil.\n\n"
+    return head + text + "\n" + new
+
+
 def translate_jobutil(repo):
     """scheduler/base/job_util.py: the checks of BaseJob.__init__; scheduler/util.py::are_weekday_times_unique"""
     import py2v_funcs as F
@@ -476,6 +512,7 @@ def translate_jobutil(repo):
             raise Untranslatable("untranslatable: %s not found in %s" % (name, path))
         f = F.Func(fds[name], known, valdicts=valdicts)
         out.append(f.emit())
+        JOBUTIL_KNOWN[name] = ([t for _, t in f.params], f.ret, f.uses_clock)
     head = HEADER % path + "From Gen Require Import GenOccur GenDup.\n\n"
     return head + "\n".join(out)
 
@@ -511,7 +548,8 @@ def main():
             status[fname] = "untranslatable: cannot read/parse %s: %s" % (src, e)
     sys.path.insert(0, os.path.dirname(os.path.abspath(__file__)))
     for fname, fn in (("GenTimer.v", translate_timer), ("GenJobState.v", translate_jobstate),
-                      ("GenJobUtil.v", translate_jobutil), ("GenSelect.v", translate_select)):
+                      ("GenJobUtil.v", translate_jobutil), ("GenSelect.v", translate_select),
+                      ("GenJobInit.v", translate_jobinit)):
         try:
             text = fn(repo)
             with open(os.path.join(outdir, fname), "w") as fh:
